@@ -35,7 +35,7 @@ func (c Cfg) String() string {
 }
 
 type Op struct {
-	K        string // write reopen rename pause foreign
+	K        string // write reopen rename pause foreign touch restart restart+reopen reopen+idle restart+reopen+idle
 	Data     []byte
 	PauseMs  int
 	NoFormat bool
@@ -85,6 +85,9 @@ type Summary struct {
 	CertainTimeNoRot int
 	WriteErrors      int
 	Acked            int
+	Restarts         int
+	Touches          int
+	IdleAfterReopen  int
 }
 
 // Violation carries the property it belongs to.
@@ -309,6 +312,47 @@ func (r *Runner) Step(op Op) *Violation {
 		}
 		r.foreign[name] = true
 		_ = os.WriteFile(filepath.Join(r.Dir, name), []byte("foreign"), 0o644)
+		return nil
+	case "touch":
+		// an outside process (log shipper, backup restore) touches an old rotated file: its mtime becomes the newest
+		var pats []*rec
+		for _, x := range r.recs {
+			if _, ok := r.patternTS(x.name); ok && !x.removed && !x.moved && x != r.active {
+				pats = append(pats, x)
+			}
+		}
+		if len(pats) > 0 {
+			sort.Slice(pats, func(i, j int) bool { return pats[i].key < pats[j].key })
+			future := time.Now().Add(time.Hour)
+			if os.Chtimes(filepath.Join(r.Dir, pats[0].name), future, future) == nil {
+				r.Sum.Touches++
+			}
+		}
+		return nil
+	case "reopen+idle", "restart+reopen+idle":
+		// the file is (re)opened without a write and then sits idle for longer than MaxDuration
+		k := "reopen"
+		if op.K != "reopen+idle" {
+			k = "restart+reopen"
+		}
+		if v := r.Step(Op{K: k}); v != nil {
+			return v
+		}
+		if c.MaxDurMs > 0 {
+			time.Sleep(time.Duration(c.MaxDurMs+6) * time.Millisecond)
+			r.Sum.IdleAfterReopen++
+		}
+		return nil
+	case "restart", "restart+reopen":
+		// the process restarts: a brand-new FileSink value with the same configuration takes over the directory
+		old := r.Sink
+		r.Sink = &eventlogger.FileSink{Path: old.Path, FileName: old.FileName, Mode: old.Mode, MaxBytes: old.MaxBytes, MaxFiles: old.MaxFiles,
+			MaxDuration: old.MaxDuration, Format: old.Format, TimestampOnlyOnRotate: old.TimestampOnlyOnRotate}
+		r.isOpen, r.unsure, r.since, r.extRen = false, false, 0, false
+		r.Sum.Restarts++
+		if op.K == "restart+reopen" {
+			return r.Step(Op{K: "reopen"})
+		}
 		return nil
 	case "rename":
 		if r.active == nil || r.active.removed || r.extRen {
